@@ -371,6 +371,20 @@ func c05(c *ctx) {
 			reqs:      func(string) []string { return []string{"seen:Verify", "@failedCheck[i]=F"} },
 			minTarget: 1,
 		})
+		// a transaction that fails the pre-pass CheckTx is recorded as failed before the pass moves on
+		c.mpt(mptSpec{
+			rule: "R4", fn: applyTxs, events: evSet{"CheckTx": {checkTx}, "Verify": {batchVerify}},
+			extraEv: func(in ssa.Instruction) string {
+				if mu, ok := in.(*ssa.MapUpdate); ok && strings.HasPrefix(c.p.path(mu.Map), "makemap") && isErrorType(mu.Value.Type()) {
+					return "recordFailed"
+				}
+				return ""
+			},
+			resets: map[string][]string{"CheckTx": {"recordFailed"}},
+			target: tgtAny(tgtCall("next-precheck", checkTx), tgtCall("batch-verify", batchVerify)),
+			reqs:   func(string) []string { return []string{"!seen:CheckTx|CheckTx.ok|seen:recordFailed"} },
+			minTarget: 2,
+		})
 		// verdicts are recorded: the result of Verify() is ranged over and stored into the map the loop consults
 		okUse := false
 		for _, cs := range callsIn(applyTxs, false, batchVerify) {
